@@ -273,44 +273,17 @@ theorem discipline_sound (tr : HB.Trace) (wf : HB.WF tr) (l : Nat) (d : HB.Disc)
 
 /-! The hypotheses of `discipline_sound` are satisfiable by a non-trivial trace: two goroutines that write and
 read location 7 under mutex 0 (the shape of `firstError.set` / `firstError.get` after the repair). -/
-def mutexTrace : HB.Trace :=
-  [(0, .acq true 0), (0, .wr 7), (0, .rel true 0), (1, .acq true 0), (1, .rd 7), (1, .rel true 0)]
-
-theorem mutexTrace_acq {a t m : Nat} {x : Bool} (h : mutexTrace[a]? = some (t, .acq x m)) :
-    (a = 0 ∧ t = 0 ∨ a = 3 ∧ t = 1) ∧ x = true ∧ m = 0 := by
-  rcases a with _ | _ | _ | _ | _ | _ | a <;> simp [mutexTrace] at h
-  · obtain ⟨h1, h2, h3⟩ := h; subst h1; subst h2; subst h3; simp
-  · obtain ⟨h1, h2, h3⟩ := h; subst h1; subst h2; subst h3; simp
-
-theorem mutexTrace_wf : HB.WF mutexTrace := by
-  constructor
-  · rintro m i t u x htu ⟨a, hai, ha, hna⟩ ⟨a', ha'i, ha', hna'⟩
-    obtain ⟨h1, _, hm⟩ := mutexTrace_acq ha
-    obtain ⟨h2, hx, _⟩ := mutexTrace_acq ha'
-    subst hm; subst hx
-    rcases h1 with ⟨rfl, rfl⟩ | ⟨rfl, rfl⟩ <;> rcases h2 with ⟨rfl, rfl⟩ | ⟨rfl, rfl⟩
-    · exact htu rfl
-    · exact hna 2 (by omega) (by omega) (by simp [mutexTrace])
-    · exact hna' 2 (by omega) (by omega) (by simp [mutexTrace])
-    · exact htu rfl
-  · intro k i j t u h
-    rcases i with _ | _ | _ | _ | _ | _ | i <;> simp [mutexTrace] at h
-  · intro k e t h
-    rcases e with _ | _ | _ | _ | _ | _ | e <;> simp [mutexTrace] at h
-  · intro k r u h
-    rcases r with _ | _ | _ | _ | _ | _ | r <;> simp [mutexTrace] at h
-
-example : HB.WF mutexTrace ∧ HB.Respects mutexTrace 7 (.mutex 0) none ∧ ¬ HB.Race mutexTrace 7 := by
-  have hr : HB.Respects mutexTrace 7 (.mutex 0) none := by
+example : HB.WF HB.mutexTrace ∧ HB.Respects HB.mutexTrace 7 (.mutex 0) none ∧ ¬ HB.Race HB.mutexTrace 7 := by
+  have hr : HB.Respects HB.mutexTrace 7 (.mutex 0) none := by
     refine ⟨(by intro c p h; cases h), ?_⟩
     intro i t e h hl
     refine Or.inr ⟨(by intro c p h; cases h), Or.inl ?_⟩
-    rcases i with _ | _ | _ | _ | _ | _ | i <;> simp [mutexTrace] at h
+    rcases i with _ | _ | _ | _ | _ | _ | i <;> simp [HB.mutexTrace] at h
     all_goals (obtain ⟨h1, h2⟩ := h; subst h1; subst h2)
     all_goals (first | (simp [HB.onLoc] at hl; done) | skip)
-    · exact ⟨0, by omega, by simp [mutexTrace], fun b hb1 hb2 => by omega⟩
-    · exact ⟨3, by omega, by simp [mutexTrace], fun b hb1 hb2 => by omega⟩
-  exact ⟨mutexTrace_wf, hr, discipline_sound mutexTrace mutexTrace_wf 7 (.mutex 0) none hr⟩
+    · exact ⟨0, by omega, by simp [HB.mutexTrace], fun b hb1 hb2 => by omega⟩
+    · exact ⟨3, by omega, by simp [HB.mutexTrace], fun b hb1 hb2 => by omega⟩
+  exact ⟨HB.mutexTrace_wf, hr, discipline_sound HB.mutexTrace HB.mutexTrace_wf 7 (.mutex 0) none hr⟩
 
 /-- the trace of the captured `err` of GenericSet.Where / positionalRelation.Where before the repair: the caller
 starts two workers (frozen's fan-out); one tests `err != nil` while the other assigns `err = err2`; the caller
